@@ -202,7 +202,7 @@ async def run_batch(dep, flows_spec, seed, log=None, fid0=1, settle_cap=9.0, mbo
         await asyncio.gather(*[asyncio.wait([asyncio.ensure_future(f.hold[0].wait()), f._done], return_when=asyncio.FIRST_COMPLETED)
                                for f in holders])
         await asyncio.sleep(HOLD_S)
-        cur = await dep.stable_fds(baseline=base, cap=3.0)
+        cur = await dep.stable_fds(baseline=base, cap=3.0 if dep.conf.transport != "quic" else 12.0)
         held.append(cur)
         release.set()
 
